@@ -476,6 +476,62 @@ class Synthetic(Stage):
         return res
 
 
+class ArrayElements(Stage):
+    """array arguments whose contents are known (GDB mode decodes them): element j of the array at argument position i
+    is decorated exactly as argument i would be - exhaustive over the shipped messages that have an array argument"""
+    name = 'array-elements'
+    kind = 'enum'
+    exhaustive = True
+
+    def examples(self, tier):
+        return 1
+
+    def cases(self, tier):
+        d, w = descs()
+        out = []
+        for n, (cands, _) in sorted(w.items()):
+            for m in cands[0].msgs:
+                for i, a in enumerate(m.args):
+                    if a.type == 'array':
+                        out.append([n, m.name, i, len(m.args)])
+        return out
+
+    def execute(self, case):
+        from core import wl
+        from core.wl import protocol
+        from core import ConnectionManager
+        env.reset_globals()
+        res = Result()
+        iface, mname, index, nargs = case
+        cm = ConnectionManager()
+        conn = cm.open_connection(0.0, 'x', False)
+        obj = conn.create_object(0.0, conn.wl_display(), 3, iface)
+        values = [0, 1, 2, 3, 4, 5, 6, 7]
+        args = []
+        for k in range(nargs):
+            args.append(wl.Arg.Array([wl.Arg.Int(v) for v in values]) if k == index else wl.Arg.Int(0))
+        msg = wl.Message(0.0, obj, False, mname, tuple(args))
+        try:
+            conn.message(msg)
+        except RuntimeError:
+            pass
+        arr = msg.args[index]
+        res.evals = len(values)
+        for e in arr.values:
+            try:
+                exp = protocol.look_up_enum(iface, mname, index, e.value)
+            except RuntimeError:
+                exp = []
+            if list(getattr(e, 'labels', [])) != list(exp) or e.name is not None:
+                res.bad('array-element-decoration', '%s.%s argument %d: element %d decorated %r (name %r), the argument\'s own enum gives %r' % (
+                    iface, mname, index, e.value, getattr(e, 'labels', []), e.name, exp))
+                break
+        res.nontrivial = True
+        res.label('array-argument')
+        res.sample = case
+        return res
+
+
 class C07(Prop):
     id = 'C07'
     rule = ('shipped-exhaustive: every shipped interface (one case each) x message x argument position: get_arg_name / look_up_interface / '
@@ -487,7 +543,7 @@ class C07(Prop):
     assumptions = ['protoxml.py (own ElementTree reader and literal evaluator) is the oracle',
                    'ties at equal maximal version: any one description is accepted, consistently per interface',
                    'arguments that carry no enum attribute in the XML (hand-tagged by the tool) are not judged']
-    stages = [Shipped(), Pipeline(), Synthetic()]
+    stages = [Shipped(), Pipeline(), ArrayElements(), Synthetic()]
 
 
 PROP = C07()
